@@ -44,12 +44,28 @@ def make_target(kind):
 
 def run_kind(ctx, kind, loop):
     target, ns_cls, side, helpers = make_target(kind)
+    # invariant at a hook: from the instant a class-based namespace is
+    # reachable through the registry (another thread may route a CONNECT or an
+    # event to it right then) its helpers must work, i.e. it is already bound
+    # to the server / client it forwards to
+    class Registry(dict):
+        def __setitem__(self_, key, value):
+            bound = getattr(value, 'server', None) if side == 'server' \
+                else getattr(value, 'client', None)
+            ctx.count('registrations_checked')
+            if bound is not target:
+                ctx.violation(None, '%s.register_namespace made the '
+                              'namespace object reachable in the registry '
+                              'before binding it (its helpers would raise '
+                              'for a handler running at that instant)'
+                              % type(target).__name__,
+                              {'class': kind, 'namespace': key,
+                               'bound_to': repr(bound)})
+            dict.__setitem__(self_, key, value)
+    target.namespace_handlers = Registry(target.namespace_handlers)
     for reg in REG_NAMESPACES:
         nsobj = ns_cls(reg)
-        if side == 'server':
-            target.register_namespace(nsobj)
-        else:
-            target.register_namespace(nsobj)
+        target.register_namespace(nsobj)
         for helper in helpers:
             if not hasattr(nsobj, helper):
                 ctx.violation(None, '%s lacks helper %s' % (kind, helper),
@@ -205,6 +221,7 @@ def run(ctx):
         'defaults of omitted non-namespace arguments are not judged',
         'parameters the underlying method lacks (vestigial) are skipped and '
         'listed', 'explicit namespace values are truthy strings']
+    ctx.require('registrations_checked', 8)
     ctx.require('helper_calls', 500)
     ctx.require('arguments_compared', 500)
     ctx.require('namespace_checked', 500)
